@@ -5,7 +5,10 @@
    10.0.0.0/(32-W) and family 6 as 2001:db8::/(128-W).
      prefix   [fam, v, len]    len in 0..W, v the (possibly unmasked) base value; len = -(32-W) / -(128-W)
                                is the default route of the family (real mask size 0)
-     packet   [fam, dst, tos, frag]   frag: 0 none, 1 more-fragments flag, 2 fragment offset # 0 (IPv4 only)
+     packet   [fam, dst, tos, frag]   frag: 0 none, 1 more-fragments flag, 2 fragment offset # 0 (IPv4);
+                               IPv6: 3 = carries a fragment extension header, 4 = hop-by-hop + destination options
+                               (the statement only drops IPv4 fragments: IPv6 packets are routed whatever
+                               extension headers they carry)
      class    [m, sess]        m: "true" | "false" | "tos" (IPv4 TOS = 184); sess: 1 iff a session is set
      entry    [p |-> prefix, cls |-> <<class, ...>>]
      table    <<entry, ...>>   distinct prefixes; the session of class j of entry i has id 10*i + j
@@ -45,7 +48,7 @@ EntryRoute(table, i, pkt) ==
 \* the property: most specific prefix containing the destination, first matching class; 0 = dropped
 Route(table, pkt, W) ==
     LET cands == {i \in 1..Len(table) : PContains(table[i].p, pkt.fam, pkt.dst, W)} IN
-    IF pkt.frag # 0 THEN 0
+    IF pkt.fam = 4 /\ pkt.frag # 0 THEN 0
     ELSE IF cands = {} THEN 0
     ELSE LET best == CHOOSE i \in cands : \A k \in cands : table[k].p.len <= table[i].p.len IN
          EntryRoute(table, best, pkt)
